@@ -26,12 +26,11 @@ def plan(tier, seed):
   specs = []
   for i in range(6):
     specs.append({'shard': 'word-%d' % i, 'n': 40 if q else 200,
-                  'sizes': [1024, 2048] + ([3072] if q else [3072, 4096]),
+                  'sizes': [1024, 1536, 2048] + ([3072] if q else [3072, 4096]),
                   'weight': 3})
   for i in range(4):
-    specs.append({'shard': 'swap-%d' % i, 'n': 30 if q else 150,
-                  'sizes': [1024, 2048] + ([] if q else [3072, 4096]),
-                  'weight': 3})
+    specs.append({'shard': 'swap-%d' % i, 'reps': 1 if q else 3,
+                  'sizes': [1024, 1536, 2048, 3072, 4096], 'weight': 7})
   for i in range(2):
     specs.append({'shard': 'both-%d' % i, 'n': 80 if q else 400,
                   'sizes': [1024, 2048] + ([] if q else [4096])})
@@ -100,38 +99,48 @@ def run_word(ctx, spec):
     pass
 
 
-def run_swap(ctx, spec):
-  from paranoid_crypto.lib import rsa_single_checks as rs
-  rng = ctx.rng('swap')
-  chk = rs.CheckPermutedBitPatterns()
-  for i in range(spec['n']):
-    nbits = rng.choice(spec['sizes'])
-    cells = []
+def swap_cells(sizes):
+  """Every (modulus bits, limb size, pattern size) cell whose implied
+  denominator has at most bits/10 bits."""
+  cells = []
+  for nbits in sizes:
     for wsize in (8, 16, 32, 64):
       for psize in range(3, wsize, 2):
         d = (2 ** psize - 1) * (2 ** (psize * wsize) + 1) // (2 ** wsize + 1)
         if d.bit_length() > nbits // 10:
           break
-        cells.append((wsize, psize, d.bit_length()))
-    wsize, psize, dbits = cells[(i * 5 + ctx.seed * 3) % len(cells)] \
-        if i % 2 else rng.choice(cells)
-    if not ctx.want('s%d' % i):
-      continue
-    got = rsagen.patterned_prime(rng, nbits // 2, psize, dev_bits=32,
-                                 swap=wsize)
-    if got is None:
-      continue
-    p, _ = got
-    qq = rsagen.rand_prime_top2(rng, nbits // 2)
-    n = p * qq
-    flagged, facs = _run(ctx, chk, n)
-    _outcome(ctx, 'swapped-limbs', flagged and {p, qq} <= facs, n,
-             {'wsize': wsize, 'psize': psize, 'dbits': dbits, 'nbits': nbits})
-  try:
-    ctx.sample({'family': 'repeated word with swapped limbs', 'limb': wsize,
-                'pattern': psize, 'nbits': nbits, 'p': p})
-  except NameError:
-    pass
+        cells.append((nbits, wsize, psize, d.bit_length()))
+  return cells
+
+
+def run_swap(ctx, spec):
+  from paranoid_crypto.lib import rsa_single_checks as rs
+  rng = ctx.rng('swap')
+  chk = rs.CheckPermutedBitPatterns()
+  cells = swap_cells(spec['sizes'])
+  if ctx.tier == 'quick':
+    # 4096-bit moduli are expensive to build: only the 64-bit-limb cells
+    cells = [c for c in cells if c[0] < 4096 or c[1] == 64]
+  part = int(spec['shard'].split('-')[1])
+  mine = [c for j, c in enumerate(cells) if j % 4 == part]
+  for rep in range(spec['reps']):
+    for (nbits, wsize, psize, dbits) in mine:
+      if not ctx.want('%d/%d/%d/%d' % (nbits, wsize, psize, rep)):
+        continue
+      got = rsagen.patterned_prime(rng, nbits // 2, psize, dev_bits=32,
+                                   swap=wsize)
+      if got is None:
+        continue
+      p, _ = got
+      qq = rsagen.rand_prime_top2(rng, nbits // 2)
+      n = p * qq
+      flagged, facs = _run(ctx, chk, n)
+      ctx.count('swap_cells_covered')
+      _outcome(ctx, 'swapped-limbs', flagged and {p, qq} <= facs, n,
+               {'wsize': wsize, 'psize': psize, 'dbits': dbits,
+                'nbits': nbits})
+      ctx.sample({'family': 'repeated word with swapped limbs', 'limb': wsize,
+                  'pattern': psize, 'nbits': nbits, 'p': p})
 
 
 def run_both(ctx, spec):
